@@ -45,6 +45,12 @@ def step (d : DSt) (line : String) : DSt × String :=
   | some "unsched" =>
     let d1 := { d with S := unschedule d.S (bitsOf (kv "p")) }
     (d1, showEntries d1.S)
+  | some "group" =>
+    let keys := ((kv "keys").splitOn ",").map bitsOf
+    let g := groupKeys d.I d.D (nat "cur") (nat "avg") (kv "valid" == "1") (kv "sched" == "1") d.order d.S keys
+    let gs := sortStrs (g.groups.map fun e => s!"{showBits e.1}:{e.2.length}")
+    let d1 := { d with S := g.S }
+    (d1, "groups=[" ++ ",".intercalate gs ++ "] " ++ showEntries d1.S)
   | some "slot" => (d, toString (slotT d.I d.order (bitsOf (kv "p"))))
   | some "tb" => (d, toString (timeBetween d.I (nat "a") (nat "b")))
   | some "sleep" => ({ d with now := d.now + nat "s" }, "ok")
